@@ -179,6 +179,9 @@ def known_bits(I, v, limit=80):
     if isinstance(v, int):
         return v.bit_length() if v >= 0 else None
     t = zterm(v)
+    sb = syn_bounds(I, t)
+    if sb is not None and sb[0] >= 0 and sb[1].bit_length() <= limit:
+        return max(sb[1].bit_length(), 1)       # syntactic bound (inputs' declared ranges, BV2Int widths ...): no solver call
     if not I.path.must(t >= 0):
         return None
     for k in (1, 2, 3, 4, 5, 8, 10, 13, 16, 23, 24, 31, 32, 40, 48, 64, limit):
@@ -290,6 +293,16 @@ def syn_bounds(I, t, depth=0):
         return None
     k = t.decl().kind()
     ch = t.children()
+    if k in (getattr(z3, 'Z3_OP_BV2INT', -1), getattr(z3, 'Z3_OP_UBV2INT', -2)):
+        p = t.params()
+        if not p or p[0] == 0:                  # unsigned conversion of a w-bit vector
+            return (0, (1 << ch[0].size()) - 1)
+        return None
+    if k == z3.Z3_OP_MOD and z3.is_int_value(ch[1]) and ch[1].as_long() > 0:
+        return (0, ch[1].as_long() - 1)
+    if k == z3.Z3_OP_IDIV and z3.is_int_value(ch[1]) and ch[1].as_long() > 0:
+        x = syn_bounds(I, ch[0], depth + 1)
+        return None if x is None else (x[0] // ch[1].as_long(), x[1] // ch[1].as_long())
     if k == z3.Z3_OP_ITE:
         x, y = syn_bounds(I, ch[1], depth + 1), syn_bounds(I, ch[2], depth + 1)
         return None if x is None or y is None else (min(x[0], y[0]), max(x[1], y[1]))
@@ -357,6 +370,10 @@ def int_bitop(I, op, a, b):
         if isinstance(b, int) and b == 0:
             return a
         return bv_binop(I, op, a, b)
+    if isinstance(a, int) and not isinstance(a, bool) and a == 0:      # 0 ^ x == x for every integer
+        return b
+    if isinstance(b, int) and not isinstance(b, bool) and b == 0:
+        return a
     return bv_binop(I, op, a, b)
 
 
